@@ -369,7 +369,7 @@ func main() {
 	}
 	for ci := 0; ci < 4; ci++ {
 		conf := wconf{coal: ci%2 == 1, wt: ci/2 == 1, lens: []int{40, 25, 31}}
-		for kind := 0; kind < 5; kind++ {
+		for kind := 0; kind < 6; kind++ {
 			for mid := 0; mid <= 2; mid++ {
 				cutsT := []int{1, 8, 9, 10, 39}
 				if kind == 1 {
@@ -377,6 +377,12 @@ func main() {
 				}
 				if kind == 4 {
 					cutsT = []int{0, 1, 9, 39}
+				}
+				if kind == 5 {
+					if !conf.wt {
+						continue
+					}
+					cutsT = []int{0, 9}
 				}
 				if tier == "thorough" {
 					cutsT = nil
@@ -392,7 +398,7 @@ func main() {
 					if kind == 2 || kind == 4 {
 						kinds = append(kinds, "ok")
 					}
-					if kind == 1 || kind == 3 {
+					if kind == 1 || kind == 3 || kind == 5 {
 						kinds = []string{"ok"}
 					}
 					for _, ek := range kinds {
